@@ -253,6 +253,9 @@ class _Sym:
             return self.env[e.id]
         if pf.is_self_attr(e):
             if e.attr not in self.attrs:
+                ca = pf.class_attrs(self.cls).get(e.attr) if self.cls is not None else None
+                if ca is not None:
+                    return self.ev(ca)  # class-level constant
                 raise core.AnalysisError("shape construction reads self.%s before it is set" % e.attr)
             return self.attrs[e.attr]
         if isinstance(e, ast.ListComp) and len(e.generators) == 1 and not e.generators[0].ifs \
@@ -313,11 +316,13 @@ class _Sym:
             return len(self.ev(e.args[0]))
         raise core.AnalysisError("expression in shape construction not modelled: %s" % pf.src(e))
 
-    def run(self, stmts, stop_on_shapes=True):
+    def run(self, stmts, stop_on_shapes=True, tolerant=False):
         for st in stmts:
             if self.returned is not None:
                 return
             if isinstance(st, ast.Return):
+                if tolerant:
+                    return
                 self.returned = self.ev(st.value) if st.value is not None else []
                 return
             if isinstance(st, ast.Assign) and len(st.targets) == 1 and isinstance(st.targets[0], ast.Tuple):
@@ -350,10 +355,17 @@ class _Sym:
                             raise
                         self.env.pop(t.id, None)
             elif isinstance(st, ast.If):
-                c = self.ev(st.test)
+                try:
+                    c = self.ev(st.test)
+                except core.AnalysisError:
+                    if not tolerant:
+                        raise
+                    continue  # a test on run-time data (input validation): neither arm defines a shape or dtype
                 if not isinstance(c, bool):
+                    if tolerant:
+                        continue
                     raise core.AnalysisError("shape construction branches on %s" % pf.src(st.test))
-                self.run(st.body if c else st.orelse, stop_on_shapes)
+                self.run(st.body if c else st.orelse, stop_on_shapes, tolerant)
             elif isinstance(st, ast.Expr) and isinstance(st.value, ast.Call) and isinstance(st.value.func, ast.Attribute) \
                     and isinstance(st.value.func.value, ast.Name) and st.value.func.value.id in self.env \
                     and st.value.func.attr in ("insert", "append"):
@@ -401,13 +413,10 @@ def python_side(mod):
         if "_inshape" not in sym.attrs or "_outshape" not in sym.attrs:
             raise core.AnalysisError("FFTWrapper.__init__ does not assign _inshape/_outshape")
         # element type of the output buffer allocated by call()
-        s2 = _Sym({})
+        s2 = _Sym({}, mod.cls("FFTWrapper"))
         s2.attrs = dict(sym.attrs)
         et = None
-        for st in call.body:
-            if isinstance(st, ast.Assign) and len(st.targets) == 1 and isinstance(st.targets[0], ast.Name) \
-                    and st.targets[0].id == "dtype":
-                s2.env["dtype"] = s2.ev(st.value)
+        s2.run(call.body, stop_on_shapes=False, tolerant=True)  # locals of call() that depend on the flags only (dtype selection)
         if len(dt) == 1:
             kw = [k.value for k in dt[0].keywords if k.arg == "dtype"]
             if kw:
@@ -639,17 +648,27 @@ def rule_fftw_roles(chk, tree):
         for ent in entries:
             plan = c_plan(tu, r2c, inplace, fwd, bf)
             pn = [p_.get("name") for p_ in tu.params(ent)]
+            tolerant = False
             try:
                 ev = cpoly.CEval(tu, ent, {pn[0]: plan, pn[1]: IN_PTR, pn[2]: OUT_PTR}, inline=True).run()
             except core.AnalysisError:
-                continue
+                # e.g. the arguments are computed by code that branches on the (symbolic) dimensions: evaluate
+                # tolerantly -- whatever cannot be modelled becomes opaque -- so that the role identities
+                # (which array / which buffer is handed over) can still be decided
+                plan = c_plan(tu, r2c, inplace, fwd, bf)
+                ev = cpoly.FieldEval(tu, ent, {pn[0]: plan, pn[1]: IN_PTR, pn[2]: OUT_PTR}, inline=True)
+                try:
+                    ev.run()
+                except core.AnalysisError:
+                    continue
+                tolerant = True
             calls = [(nm, a) for nm, a in ev.calls if nm in FFTW_PLANNERS]
             if calls:
-                found = (ent, plan, calls)
+                found = (ent, plan, calls, tolerant)
                 break
         if found is None:
             raise core.AnalysisError("no C entry point (plan, in, out) reaches an fftw_plan_many_dft* call [%s]" % cfgs)
-        ent, plan, calls = found
+        ent, plan, calls, tolerant = found
         F = plan.fields
         line = tu.line_of(tu.func(ent))
 
@@ -674,8 +693,16 @@ def rule_fftw_roles(chk, tree):
         ok_n = isinstance(dims, tuple) and dims[0] == "arrayfield" and \
             [dims[1].arrays[dims[2]].get(k) for k in range(NDIM)] == list(DIMS)
         need_(a.get("rank") == P.const(NDIM) and ok_n and a.get("howmany") == F["ntransform"], "rank / n / howmany",
-              "rank=%r n=%r howmany=%r; the plan has rank %d, dims (d0, d1, d2) and ntransform %r"
-              % (a.get("rank"), dims, a.get("howmany"), NDIM, F["ntransform"]))
+              "rank=%r n=%r howmany=%r; the plan has rank %d, dims (d0, d1, d2) and ntransform %r -- sizes, strides and "
+              "the padded copies are computed from the plan's full dims, so FFTW must be given exactly that array%s"
+              % (a.get("rank"), dims, a.get("howmany"), NDIM, F["ntransform"],
+                 " (here a locally built / filtered copy is passed)" if not ok_n else ""))
+        if tolerant and not (isinstance(a.get("istride"), P) and isinstance(a.get("idist"), P)
+                             and isinstance(a.get("ostride"), P) and isinstance(a.get("odist"), P)):
+            if a.get("rank") == P.const(NDIM) and ok_n:
+                raise core.AnalysisError("%s: stride / dist arguments of %s are computed by code the evaluator cannot "
+                                         "model [%s]" % (ent, nm, cfgs))
+            continue
         want_out = IN_PTR if inplace else OUT_PTR
         need_(a.get("in") == P.const(IN_PTR) and a.get("out") == P.const(want_out), "in / out buffers",
               "in=%r out=%r; expected the input buffer and %s" % (a.get("in"), a.get("out"),
@@ -858,6 +885,14 @@ def mutants(tree):
         Mutant("buffer: real branch converts the dtype but keeps the caller's memory order", FP,
                "            x = np.ascontiguousarray(x, dtype=np.float64)\n", "            x = np.asarray(x, dtype=np.float64)\n",
                expect="buffer-layout"),
+        Mutant("C: FFTW is planned on a filtered copy of the dims", CFULL,
+               "    if (plan->r2c) {\n        if (plan->fwd) {\n            plan->plan = fftw_plan_many_dft_r2c(\n                plan->ndim, plan->dims,",
+               "    int rank = 0;\n    int n[plan->ndim];\n    for (int i = 0; i < plan->ndim; i++) {\n        if (plan->dims[i] != 1) {\n"
+               "            n[rank++] = plan->dims[i];\n        }\n    }\n"
+               "    if (plan->r2c) {\n        if (plan->fwd) {\n            plan->plan = fftw_plan_many_dft_r2c(\n                rank, n,",
+               expect="fftw-roles"),
+        Mutant("restype table loop loses a pointer-returning function", FP,
+               "libfft.malloc_fft_plan_in_array.restype = ctypes.c_void_p\n", "", expect="ffi"),
         Mutant("C: prototype of write_fft_input gains a size argument", CFULL,
                "void write_fft_input(fft_plan_t *plan, void *input) {", "void write_fft_input(fft_plan_t *plan, size_t n, void *input) {",
                expect="ffi"),
